@@ -325,8 +325,8 @@ def open_keys(prop_id: str) -> dict:
 # evidence
 
 def write_evidence(prop_id: str, ev: dict):
-    d = VERIF / 'evidence'
-    d.mkdir(exist_ok=True)
+    d = Path(os.environ.get('VERIF_EVIDENCE_DIR') or (VERIF / 'evidence'))
+    d.mkdir(parents=True, exist_ok=True)
     (d / f'{prop_id}.json').write_text(json.dumps(ev, indent=1, default=str) + '\n')
 
 
